@@ -300,6 +300,14 @@ func famC11(rn *Runner) {
 				if !ok || xerr != nil || len(A) == 0 {
 					continue
 				}
+				if rn.R.Chance(1, 2) {
+					// the caller may hold the nodes in any order: a variable is that value, in that order
+					for i := len(A) - 1; i > 0; i-- {
+						j := rn.R.Intn(i + 1)
+						A[i], A[j] = A[j], A[i]
+					}
+				}
+				bound := append(xsel.NodeSet{}, A...)
 				var ps []Path
 				for _, c := range A {
 					p, _ := pathOf(c)
@@ -319,6 +327,13 @@ func famC11(rn *Runner) {
 					r2, x2 := xsel.Exec(d.Root, gr, settings...)
 					impl := projectResult(r2, x2)
 					model := rn.M.Ask((&QCase{Doc: d, Start: Path{}, Env: env2, E: e}).ModelCmd())
+					for i := range bound {
+						if A[i] != bound[i] {
+							// the bound value itself was rewritten (compared cell by cell: node-set answers are otherwise compared as sets)
+							impl = fmt.Sprintf("REWRITTEN the bound node-set: cell %d changed; answer %s", i, impl)
+							break
+						}
+					}
 					trace = append(trace, text)
 					rn.Eval("heldvar|"+fmt.Sprint(d.ID)+Render(ea, RenderOpts{})+strings.Join(trace, ";"), len(trace) > 1)
 					if !agree(impl, model) && !rn.TooMany() {
@@ -336,8 +351,38 @@ func famC11(rn *Runner) {
 	}
 }
 
+// langDoc: every xml:lang situation in one fixed tree - an empty value below a non-empty one, a re-declaration, a lang
+// attribute in no / another namespace before and after xml:lang, none in scope, values that differ only in case
+func langDoc(rn *Runner) *Doc {
+	x := "http://www.w3.org/XML/1998/namespace"
+	st := func(n string) Event { return Event{Kind: EvStart, B: n} }
+	at := func(sp, l, v string) Event { return Event{Kind: EvAttr, A: sp, B: l, C: v} }
+	tx := func(v string) Event { return Event{Kind: EvText, A: v} }
+	end := Event{Kind: EvEnd}
+	return rn.NewDoc([]Event{st("r"), {Kind: EvNs, A: "u", B: "urn:u1"},
+		st("none"), tx("t"), end,
+		st("en"), at(x, "lang", "en"), tx("t"),
+		st("empty"), at(x, "lang", ""), at("", "id", "1"), tx("t"), st("below"), tx("t"), end, end,
+		st("gb"), at("", "lang", "de"), at(x, "lang", "EN-gb"), tx("t"), {Kind: EvComment, A: "c"}, end,
+		st("after"), at(x, "lang", "fr-CA"), at("urn:u1", "lang", "zh"), at("", "lang", "en"), st("k"), end, end,
+		st("plain"), at("", "lang", "en"), tx("t"), end,
+		end,
+		st("x"), at(x, "lang", "x-klingon"), st("y"), at(x, "lang", "en-GB-x-priv"), {Kind: EvPI, A: "t", B: "d"}, end, end,
+		end})
+}
+
 func famC12(rn *Runner) {
 	langs := []string{"en", "EN", "en-US", "en-us", "en-GB", "zh", "zh-TW", "ZH-tw", "zh-Hant", "de", "", "fr", "fr-CA", "x", "x-klingon", "eng", "en-GB-x-priv", "en-GB-x", "e", "zh-", "-", "EN-gb"}
+	// the fixed tree: every language from every node
+	{
+		d := langDoc(rn)
+		for _, p := range d.Paths {
+			for _, l := range langs {
+				rn.scalar(d, stdEnv(), p, call("lang", lit(l)), "lang-fixed-tree", "lang(L) against the nearest xml:lang (which may be empty)", true)
+			}
+		}
+		rn.DropDoc(d)
+	}
 	for di := 0; di < rn.Scale(10, 150) && !rn.TooMany(); di++ {
 		d := rn.genDoc(rn.Scale(50, 130))
 		env := envShuffled(rn, d)
